@@ -698,6 +698,7 @@ pub fn gen_caps(rng: &mut Rng, repl: bool, allow_small: bool) -> Vec<usize> {
 }
 
 pub fn emit(out: &mut Out, p: &EPlan, props: &[&str]) {
+    trace_op(&plan_lhs(p));
     let o = run_plan(p, 0);
     if o.calls.iter().all(|c| c.cap >= min_cap(p.repl)) {
         out.op(op_lhs(p, &o.calls), "ok".into());
